@@ -157,9 +157,15 @@ func C04(r *core.Run) {
 		defer close(cDone)
 		c04PartC(r, agentBin, md)
 	}()
+	dDone := make(chan struct{})
+	go func() {
+		defer close(dDone)
+		c04PartD(r, serverBin)
+	}()
 	c04PartA(r, agentBin, md)
 	c04PartB(r, serverBin)
 	<-cDone
+	<-dDone
 	r.JudgeRaces(core.ParseRaceLogs(filepath.Join(r.WorkDir, "race-")))
 	r.Finish(r.Pick(30, 600))
 }
@@ -834,4 +840,140 @@ func c04PartC(r *core.Run, agentBin string, md *fakes.Metadata) {
 		}(si, c)
 	}
 	wg.Wait()
+}
+
+// c04PartD: pollers that have been waiting for a long time.  Two pollers hold
+// their long polls against the stand-alone proxy through a quiet period; client
+// requests arriving 22-27 s into those polls (and later, after the polls have
+// been renewed) must each be handed to exactly one pending-list response.
+func c04PartD(r *core.Run, serverBin string) {
+	server, addr, err := startServer(r, serverBin, "serverD")
+	if err != nil {
+		r.Broken(err.Error())
+		return
+	}
+	defer server.Kill()
+	var mu sync.Mutex
+	listed := map[string]int{}
+	idTok := map[string]string{}
+	stop := make(chan struct{})
+	hc := &http.Client{Timeout: 45 * time.Second, Transport: &http.Transport{MaxIdleConnsPerHost: 8}}
+	var pwg sync.WaitGroup
+	polls := 0
+	for p := 0; p < 2; p++ {
+		pwg.Add(1)
+		go func(p int) {
+			defer pwg.Done()
+			for {
+				select {
+				case <-stop:
+					return
+				default:
+				}
+				req, _ := http.NewRequest("GET", "http://"+addr+"/agent/pending", nil)
+				req.Header.Set("X-Inverting-Proxy-Backend-ID", "bD")
+				resp, err := hc.Do(req)
+				if err != nil {
+					select {
+					case <-stop:
+						return
+					default:
+					}
+					time.Sleep(20 * time.Millisecond)
+					continue
+				}
+				b, _ := io.ReadAll(resp.Body)
+				resp.Body.Close()
+				var ids []string
+				json.Unmarshal(b, &ids)
+				mu.Lock()
+				polls++
+				for _, id := range ids {
+					listed[id]++
+				}
+				mu.Unlock()
+				for _, id := range ids {
+					go func(id string) {
+						rq, _ := http.NewRequest("GET", "http://"+addr+"/agent/request", nil)
+						rq.Header.Set("X-Inverting-Proxy-Backend-ID", "bD")
+						rq.Header.Set("X-Inverting-Proxy-Request-ID", id)
+						rs, err := hc.Do(rq)
+						if err != nil {
+							return
+						}
+						fb, _ := io.ReadAll(rs.Body)
+						rs.Body.Close()
+						m, _ := rawhttp.ReadRequest(bufio.NewReader(bytes.NewReader(fb)))
+						tok := ""
+						if m != nil {
+							if v := m.Get("X-Tok"); len(v) > 0 {
+								tok = v[0]
+							}
+						}
+						mu.Lock()
+						idTok[id] = tok
+						mu.Unlock()
+						body := "resp-for-" + tok
+						var w rawhttp.Builder
+						w.Line("HTTP/1.1 200 OK").Field("X-Tok", tok).Field("Content-Length", fmt.Sprint(len(body))).End()
+						w.WriteString(body)
+						pq, _ := http.NewRequest("POST", "http://"+addr+"/agent/response", bytes.NewReader(w.Bytes()))
+						pq.Header.Set("X-Inverting-Proxy-Backend-ID", "bD")
+						pq.Header.Set("X-Inverting-Proxy-Request-ID", id)
+						if ps, err := hc.Do(pq); err == nil {
+							io.Copy(io.Discard, ps.Body)
+							ps.Body.Close()
+						}
+					}(id)
+				}
+			}
+		}(p)
+	}
+	// client requests at the given times after the pollers started
+	at := []float64{0.5, 22, 24, 26, 27.5}
+	if !r.Quick() {
+		at = append(at, 33, 52, 55, 58)
+	}
+	var cwg sync.WaitGroup
+	ok := map[string]bool{}
+	t0 := time.Now()
+	for k, sec := range at {
+		cwg.Add(1)
+		go func(k int, sec float64) {
+			defer cwg.Done()
+			time.Sleep(time.Until(t0.Add(time.Duration(sec * float64(time.Second)))))
+			tok := fmt.Sprintf("s%dD%d", r.Seed, k)
+			cl := rawhttp.NewClient(addr, 30*time.Second)
+			defer cl.Close()
+			var w rawhttp.Builder
+			w.Line("GET /d/"+tok+" HTTP/1.1").Field("Host", "c04d.example").Field("X-Tok", tok).End()
+			m, err := cl.Do(w.Bytes(), "GET")
+			mu.Lock()
+			ok[tok] = err == nil && m.Status == 200 && string(m.Body) == "resp-for-"+tok
+			mu.Unlock()
+		}(k, sec)
+	}
+	cwg.Wait()
+	close(stop)
+	hc.CloseIdleConnections()
+	server.Kill()
+	pwg.Wait()
+	mu.Lock()
+	defer mu.Unlock()
+	perTok := map[string]int{}
+	for id, n := range listed {
+		if n != 1 {
+			r.Violate("C04:id-handed-out-more-than-once:long-waiting-pollers", fmt.Sprintf("request ID %s appeared in %d pending-list replies", id, n), nil, nil)
+		}
+		perTok[idTok[id]]++
+	}
+	for k, sec := range at {
+		tok := fmt.Sprintf("s%dD%d", r.Seed, k)
+		r.Cases("D|long-waiting-pollers", 1)
+		if perTok[tok] == 0 && !ok[tok] {
+			r.Violate("C04:client-request-never-listed:long-waiting-pollers", fmt.Sprintf("a client request arriving %.1f s after two pollers began their long polls was waiting for 30 s but its ID never appeared in any pending-list reply", sec), nil, nil)
+		}
+	}
+	r.Add("long_polls_completed_part_d", polls)
+	judgeProcs(r, false, server)
 }
